@@ -113,16 +113,15 @@ where
       return Err(Error::Validation(anyhow::anyhow!("dependency cycle detected")));
     }
 
-    // Check if `validate_credential` should have been called instead.
-    let has_extend = current_type.extends.is_none();
+    // An embedded schema (or no schema at all) needs no resolution.
     let is_immediate = current_type
       .schema
       .as_ref()
       .map(|schema| matches!(schema, &TypeSchema::Object { .. }))
       .unwrap_or(true);
 
-    if is_immediate && !has_extend {
-      return current_type.validate_credential(credential);
+    if is_immediate {
+      current_type.validate_credential(credential)?;
     }
 
     if !is_immediate {
